@@ -364,7 +364,7 @@ func main() {
 			walk(top, func(*node) { n++ })
 			alts := 0
 			for _, pt := range c.pts {
-				alts += pt.n - 1
+				alts += pt.core - 1
 			}
 			fmt.Printf("%-50s slots=%4d alts=%5d len=%5d nodes=%4d err=%v\n", rt.Name, len(c.pts), alts, len(e), n, err)
 		}
@@ -397,7 +397,7 @@ func main() {
 		for _, pt := range c.pts {
 			for _, d := range []int{0, 1, 2} {
 				if d == 0 || pt.depth <= d {
-					sz.altsByDepth[d] += pt.n - 1
+					sz.altsByDepth[d] += pt.core - 1
 				}
 			}
 		}
@@ -435,6 +435,7 @@ func main() {
 		for s := 0; s < n; s++ {
 			add(unit{Kind: "rt", Root: i, Shard: s, NShards: n, MaxDev: rtDev, DepthLim: rtDepth, Cost: est / n})
 		}
+		add(unit{Kind: "fit", Root: i, Cost: 2000000})
 	}
 	devBudget := 4e6 // microseconds of estimated work per (root, entry point) in the quick tier
 	for i := range roots {
@@ -686,7 +687,9 @@ func main() {
 	r.Set("fields_not_populated", opq)
 	r.Set("diagnostics_gc_dependent", map[string]interface{}{"max_alloc_bytes_per_input_byte_x1000_among_inspected_batches": maxRatio, "max_alloc_case": maxRatioAt})
 	r.Set("bounds", map[string]interface{}{"round_trip_max_fields_off_default": rtDev, "round_trip_depth_limit_per_deviation": rtDepth,
-		"hostile_corpus_max_fields_off_default": 1, "substitution_bytes": fmt.Sprintf("%x", substSet), "hostile_items": len(hostileItems()),
+		"hostile_corpus_max_fields_off_default": 1,
+		"boundary_values_one_at_a_time":         "unsigned: 2^k-1,2^k,2^k+1 for k in {7,8,16,24,32,40,48,56}; big.Int: the same up to k=128 plus 55/56-byte values; byte strings and strings: lengths 55,56,255,256,65535,65536,65537 (raw []byte root also 2^24-1,2^24,2^24+1); lists of unsigned / of byte strings: payload exactly 55,56,255,256,65535,65536,65537",
+		"payload_fitting":                       "per root, up to 6 byte-string fields x top-level list payload exactly 55,56,255,256,65535,65536,65537", "substitution_bytes": fmt.Sprintf("%x", substSet), "hostile_items": len(hostileItems()),
 		"alloc_bound": fmt.Sprintf("%d + %d*len(input) (+%d for reader entry points)", allocConst, allocPerByte, 2*readerLimit), "address_space_limit": memLimit})
 	r.Set("states", counters["distinct_encodings"])
 	r.Set("transitions", decodes)
@@ -725,6 +728,8 @@ func replayCase(r *vk.Run, reg *registry, roots []root) {
 		Entry   string `json:"entry"`
 		Input   string `json:"input"`
 		Choices []int  `json:"choices"`
+		OvIdx   int    `json:"ov_idx"`
+		OvLen   int    `json:"ov_len"`
 	}
 	r.LoadReplay(&rp)
 	dir := fmt.Sprintf("/dev/shm/C11-%d", os.Getpid())
@@ -734,7 +739,7 @@ func replayCase(r *vk.Run, reg *registry, roots []root) {
 	defer os.RemoveAll(dir)
 	u := unit{Kind: "replay-hostile", TypeName: rp.Type, Entry: rp.Entry, InputHex: rp.Input}
 	if rp.Phase == "round-trip" {
-		u = unit{Kind: "replay-rt", TypeName: rp.Type, Choices: rp.Choices}
+		u = unit{Kind: "replay-rt", TypeName: rp.Type, Choices: rp.Choices, OvIdx: rp.OvIdx, OvLen: rp.OvLen}
 	}
 	if rp.Phase == "map-order" {
 		u = unit{Kind: "maporder"}
